@@ -412,7 +412,15 @@ async def a_twice(x):
 
 @task(cache=True, check_valid="shallow")
 async def a_fail(tag):
+    CALL_LOG.append(("a_fail", "L", tag))
     raise LibError("L-%s" % tag)
+
+
+@task(cache=True, check_valid="shallow")
+async def a_await_fail(kind, tag):
+    """a cached async ancestor of a failing sync call"""
+    v = await raiser(kind, tag)
+    return v
 
 
 redun.namespace("")
